@@ -12,7 +12,7 @@ monitor       : kernpy against the property on the claimed core (single notes wi
 import json
 import random
 
-from harness import core, docs, engine, spec
+from harness import core, docs, engine, pitchspec, spec
 from harness.docs import C1
 
 
@@ -28,19 +28,18 @@ def expected_transposed_cell(kp, cell, iv, d):
             acc = n['acc']
             if acc not in ('', '#', '##', '-', '--'):
                 return None
-            try:
-                t = kp.transpose(n['pitch'] + acc, kp.IntervalsByName[iv], direction=d)
-            except Exception:
+            # the oracle is the music-theory definition (harness/pitchspec.py), not kernpy's own arithmetic
+            e = pitchspec.transpose(n['pitch'], acc, iv, d)
+            if e is None:
                 return None
-            letters = t.rstrip('#-')
-            nacc = t[len(letters):]
+            letters, nacc = e
             pd = [(x, c) for x, c in pd if c == 'DURATION'] + [(letters, 'PITCH')] + ([(nacc, 'ALTERATION')] if nacc else [])
         out.append('@'.join(x for x, _ in pd) + ('·' + '·'.join(x for x, _ in deco) if deco else ''))
     return ' '.join(out)
 
 
 def worker(kp, job):
-    seed, idx = job
+    seed, idx, full = job
     rng = random.Random(seed * 160481183 + idx)
     core_doc = idx % 2 == 0
     if core_doc:
@@ -58,9 +57,11 @@ def worker(kp, job):
     text = g.text
     bad = docs.bad_cells(kp, text)
     records = []
-    ivs = [rng.choice(kp.AVAILABLE_INTERVALS) for _ in range(3)] + ['P1', 'octave']
-    for iv in ivs:
-        d = rng.choice(['up', 'down'])
+    ivs = [(rng.choice(kp.AVAILABLE_INTERVALS), rng.choice(['up', 'down'])) for _ in range(3)] + [('P1', rng.choice(['up', 'down'])), ('octave', rng.choice(['up', 'down']))]
+    if full and idx % 5 == 0:
+        # the whole interval table in both directions (doubly augmented / diminished intervals reach the rare spellings)
+        ivs = [(iv, d) for iv in kp.AVAILABLE_INTERVALS for d in ('up', 'down')]
+    for iv, d in ivs:
         viol = []
         try:
             doc, errs = kp.loads(text)
@@ -145,19 +146,19 @@ def worker(kp, job):
                 viol.append(('fails', f'{iv} {d}: to_transposed raised {impl} although every result is spellable', {'text': text, 'interval': iv, 'direction': d}))
         records.append(engine.rec('transposed', impl=impl, req=('transposed', [C1.join(bad), text, iv, d]), viol=viol,
                                   kind='core' if core_doc else 'general', key=(text, iv, d),
-                                  sample={'text': text, 'interval': iv, 'direction': d, 'result': impl[:300]} if idx % 29 == 0 and iv == ivs[0] else None))
+                                  sample={'text': text, 'interval': iv, 'direction': d, 'result': impl[:300]} if idx % 29 == 0 and (iv, d) == ivs[0] else None))
     return {'records': records}
 
 
 def run(chk):
     b = core.standard_build(chk)
     model = core.Model() if b.modelrun_ok else None
-    full = chk.tier == 'thorough' or bool(b.drift) or not b.proof_ok
+    full = chk.tier == 'thorough' or bool(b.drift) or not b.proof_ok or not b.modelrun_ok
     n = core.budget(chk, full, 60, 400)
     chk.rule = ('generated documents (every second one in the claimed core: single notes without explicit accidental, no chords) x '
-                '5 intervals (3 random of the 40, unison, octave) x a random direction; result and source exported before / after; '
+                '5 intervals (3 random of the 40, unison, octave) x a random direction - in the thorough tier and after any drift every fifth document with all 40 intervals in both directions; result and source exported before / after; '
                 'non-trivial = distinct (text, interval, direction)')
-    results = engine.pmap(worker, [(chk.seed, i) for i in range(n)])
+    results = engine.pmap(worker, [(chk.seed, i, full) for i in range(n)])
     engine.settle(chk, results, model)
     chk.disagreements_checked = len(chk.broken)
 
